@@ -355,6 +355,10 @@ class StretchyTreeMatcher:
         if base_mappings:
             for mapping in base_mappings:
                 mapping.merge_map_with(use_previous)
+            # the bindings inherited from a previous match may contradict this node's own binding
+            base_mappings = [mapping for mapping in base_mappings if not mapping.has_conflicts()]
+            if not base_mappings:
+                return []
             # base case this runs 0 times because no children
             # find each child of ins_node that matches IN ORDER
             base_sibs = [-1]
